@@ -146,9 +146,14 @@ StepsValid == LET s == last.call.names IN
 \* normalisation is idempotent
 NormIdempotent == \A ns \in NameLists : Normalize(ns).bsp >= 0 => Normalize(Normalize(ns).steps).steps = Normalize(ns).steps
 
+\* more names than one Twalk may carry (16): the layer still issues one session call with all the steps
+\* (refusing over-long walks is the session's business, csession.go)
+Long17 == [i \in 1..17 |-> IF i % 2 = 1 THEN "a" ELSE "b"]
+Long17n == <<"x", "..", ".">> \o Long17 \o <<"">>
 NL2 == LET A == {".", "", "a", "b", "..", "a/b"} IN
        {<<>>} \cup {<<x>> : x \in A} \cup {<<x, y>> : x \in A, y \in A}
        \cup {<<"a", "..", "b">>, <<"a", "b", "..">>, <<"..", "..", "a">>, <<"a", ".", "..">>}
+       \cup {Long17, Long17n}
 NL3 == LET A == {".", "", "a", "b", "..", "a/b"} IN
        NL2 \cup {<<x, y, z>> : x \in A, y \in A, z \in A}
 =============================================================================
